@@ -22,7 +22,16 @@ fn empty_blocks() -> [SymBlock; 6] {
 }
 
 fn inter_mb(four: bool, mvd: [[i32; 2]; 4]) -> SymMb {
-    SymMb::Coded { kind: if four { MbKind::Inter4V } else { MbKind::Inter }, dquant: 1, mvd, blocks: empty_blocks() }
+    // every other macroblock carries a (pointless, there are no coefficients) quantiser update: the +Q types
+    // have MCBPC codes of their own and must reconstruct their vectors exactly like the plain types
+    let q = (mvd[0][0] + mvd[0][1]).rem_euclid(2) == 1;
+    let kind = match (four, q) {
+        (true, true) => MbKind::Inter4VQ,
+        (true, false) => MbKind::Inter4V,
+        (false, true) => MbKind::InterQ,
+        (false, false) => MbKind::Inter,
+    };
+    SymMb::Coded { kind, dquant: if mvd[0][0] % 4 == 0 { 1 } else { -1 }, mvd, blocks: empty_blocks() }
 }
 
 fn intra_mb(rng: &mut Rng) -> SymMb {
@@ -142,14 +151,12 @@ fn picture_with_vectors(fx: &Fixture, rng: &mut Rng, mbw: usize, mbh: usize, tar
     SymPicture { hdr, w: cfg.w, h: cfg.h, mbs, stuffing: vec![] }
 }
 
-fn mode_history_case(ctx: &Ctx, k: usize, rng: &mut Rng, rep: &mut Report) {
+/// A standard-mode picture whose PLUSPTYPE header switches unrestricted motion vectors on: an intra
+/// picture (decodable on its own), or a predicted picture of not-coded macroblocks (decodable only
+/// with a reference of that size) - optionally with a body that is rejected after the header.
+pub fn umv_announcement(rng: &mut Rng, fmt_w: usize, fmt_h: usize, intra: bool, poisoned: bool) -> SymPicture {
     use crate::model::header::{PlusHeader, StdHeader};
-    let (fmt_w, fmt_h) = if k % 2 == 0 { (128usize, 96usize) } else { (176, 144) };
-    let coords = || J::obj().set("property", "C12").set("tier", ctx.tier_name()).set("seed", ctx.seed).set("stage", ctx.stage.clone()).set("kind", "modes").set("k", k);
-    let mut dec = Dec::new(false, false);
-    rep.evaluations += 1;
-    // the announcing picture: custom-format PLUSPTYPE header with UMV on
-    let accepted = k % 4 < 2;
+    let accepted = intra;
     let mut hd = StdHeader::baseline(rng.byte(), 7, !accepted, 1 + rng.below(31) as u8);
     hd.plus = Some(PlusHeader {
         ufep: 1,
@@ -183,8 +190,21 @@ fn mode_history_case(ctx: &Ctx, k: usize, rng: &mut Rng, rep: &mut Report) {
         trp: None,
     });
     let nmb = ((fmt_w + 15) / 16) * ((fmt_h + 15) / 16);
-    let mbs: Vec<SymMb> = if accepted { (0..nmb).map(|_| intra_mb(rng)).collect() } else { (0..nmb).map(|_| SymMb::NotCoded).collect() };
-    let announce = SymPicture { hdr: Hdr::Std(hd), w: fmt_w, h: fmt_h, mbs, stuffing: vec![] };
+    let mut mbs: Vec<SymMb> = if accepted { (0..nmb).map(|_| intra_mb(rng)).collect() } else { (0..nmb).map(|_| SymMb::NotCoded).collect() };
+    if poisoned {
+        // an intra macroblock with the forbidden INTRADC code 0: the picture is rejected after its header was taken in
+        mbs[0] = SymMb::Coded { kind: MbKind::Intra, dquant: 1, mvd: [[0; 2]; 4], blocks: std::array::from_fn(|_| SymBlock { intradc: Some(0), events: vec![] }) };
+    }
+    SymPicture { hdr: Hdr::Std(hd), w: fmt_w, h: fmt_h, mbs, stuffing: vec![] }
+}
+
+fn mode_history_case(ctx: &Ctx, k: usize, rng: &mut Rng, rep: &mut Report) {
+    let (fmt_w, fmt_h) = if k % 2 == 0 { (128usize, 96usize) } else { (176, 144) };
+    let coords = || J::obj().set("property", "C12").set("tier", ctx.tier_name()).set("seed", ctx.seed).set("stage", ctx.stage.clone()).set("kind", "modes").set("k", k);
+    let mut dec = Dec::new(false, false);
+    rep.evaluations += 1;
+    let accepted = k % 4 < 2;
+    let announce = umv_announcement(rng, fmt_w, fmt_h, accepted, false);
     match (dec.decode(&announce.encode()), accepted) {
         (Outcome::Ok, true) | (Outcome::Err(_), false) => {}
         (Outcome::Panic { msg, loc }, _) => {
